@@ -132,13 +132,37 @@ def canon_idents(x):
     return x
 
 
+def collapsing_ast(rng, eco):
+    """an and-list whose comparators meet in exactly one version (>a <=inc(a), >=a <=a, >a =inc(a)),
+    in either order; npm and Cargo"""
+    a = [rng.choice([0, 1, 2, 3, 4, 9]) for _ in range(3)]
+    n = rng.choice([3, 3, 3, 2])
+    lo = a[:n] + [-1] * (3 - n)
+    nxt = a[:n]
+    nxt[-1] += 1
+    b = (nxt + [0, 0])[:3]
+    full_a = (a[:n] + [0, 0])[:3]
+    form = rng.randrange(3)
+    if form == 0:
+        cmps = [(2, lo), (5, b)]
+    elif form == 1:
+        cmps = [(3, full_a), (5, full_a)]
+    else:
+        cmps = [(2, lo), (1, b)]
+    if rng.random() < 0.5:
+        cmps.reverse()
+    if eco == "npm":
+        return [[1, [[op, [v[0], v[1], v[2], []]] for op, v in cmps]]]
+    return [[op, v[0], v[1], v[2], []] for op, v in cmps]
+
+
 def gen_cases(ctx):
     rng = ctx.rng
     per = ctx.scale(1100, 55000)
     cases = []
     for eco in ranges.ECOS:
         for _ in range(per):
-            ast = ranges.gen_ast(rng, eco)
+            ast = collapsing_ast(rng, eco) if (eco in ("npm", "cargo") and rng.random() < 0.06) else ranges.gen_ast(rng, eco)
             text = ranges.print_ast(rng, eco, ast)
             pv = ranges.probes(rng, eco, ast, 4)
             if eco in ("npm", "cargo"):
